@@ -26,6 +26,7 @@ func checkC05(c *Check, a *Anchors) {
 	// "any edit causes the commands to run again" also needs that queries between the edit and the run do not record the new fingerprint
 	c12DryImplied(c, a)
 	fpWriteDryGuarded(c, a, "queries-do-not-record")
+	methodResolution(c, a, "method-resolution-agrees")
 }
 
 func atomWith(asg map[string]bool, parts ...string) (string, bool) {
